@@ -23,6 +23,7 @@ def main():
     ap.add_argument("--tier", default="quick")
     ap.add_argument("--demo", action="store_true", help="also run the demonstration with and without the patch")
     ap.add_argument("--seed", default="0")
+    ap.add_argument("--tests", action="store_true", help="also run the repository's tests on the patched copy (must stay 92 passed / 5 failed)")
     a = ap.parse_args()
     base = os.path.join(ROOT, "seeded")
     names = sorted(d for d in os.listdir(base) if os.path.isdir(os.path.join(base, d)))
@@ -36,10 +37,16 @@ def main():
         tmp = tempfile.mkdtemp(prefix="dreye_seeded_")
         try:
             dst = os.path.join(tmp, "repo")
-            shutil.copytree("/repo", dst, ignore=shutil.ignore_patterns(".git", "docs", "tutorials", "__pycache__", "*.feather"))
-            demo = [f for f in os.listdir(d) if f.startswith("demo")][0]
+            shutil.copytree("/repo", dst, ignore=shutil.ignore_patterns(".git", "docs", "tutorials", "__pycache__", "_seed"))
+            demo0 = [f for f in os.listdir(d) if f.startswith("demo")][0]
+            # demos assert that dreye is imported from their original worktree: point them at the scratch copy
+            txt = open(os.path.join(d, demo0)).read()
+            for wt in set(__import__("re").findall(r"/tmp/wt_C\d+", txt)):
+                txt = txt.replace(wt, dst)
+            demo = os.path.join(tmp, "demo_run.py")
+            open(demo, "w").write(txt)
             if a.demo:
-                r0 = subprocess.run(["/venv/bin/python", "-W", "ignore", os.path.join(d, demo)], cwd=dst, capture_output=True, text=True,
+                r0 = subprocess.run(["/venv/bin/python", "-W", "ignore", demo], cwd=dst, capture_output=True, text=True,
                                     env=dict(os.environ, PYTHONPATH=dst, SEED_WORKTREE=dst), timeout=600)
             r = subprocess.run(["patch", "-p1", "-s", "-i", os.path.join(d, "patch.diff")], cwd=dst, capture_output=True, text=True)
             if r.returncode != 0:
@@ -48,9 +55,15 @@ def main():
                 continue
             line = f"[{name}] property={pid}"
             if a.demo:
-                r1 = subprocess.run(["/venv/bin/python", "-W", "ignore", os.path.join(d, demo)], cwd=dst, capture_output=True, text=True,
+                r1 = subprocess.run(["/venv/bin/python", "-W", "ignore", demo], cwd=dst, capture_output=True, text=True,
                                     env=dict(os.environ, PYTHONPATH=dst, SEED_WORKTREE=dst), timeout=600)
                 line += f" demo(without)={'pass' if r0.returncode == 0 else 'FAIL'} demo(with)={'fail' if r1.returncode != 0 else 'PASS'}"
+            if a.tests:
+                rt = subprocess.run(["/venv/bin/python", "-m", "pytest", "-q", "-p", "no:cacheprovider", "--timeout=900",
+                                     "--continue-on-collection-errors"], cwd=dst, capture_output=True, text=True,
+                                    env={k: v for k, v in os.environ.items() if k != "DREYE_VERIF"})
+                tail = [l for l in rt.stdout.splitlines() if " passed" in l or " failed" in l][-1:]
+                line += f" tests=[{tail[0].strip('= ') if tail else '?'}]"
             env = dict(os.environ, VERIF_REPO_ROOT=dst, VERIF_SEED=a.seed, VERIF_EVIDENCE_DIR=os.path.join(tmp, "ev"))
             rc = subprocess.run([os.path.join(ROOT, "bin", "check"), pid, "--tier", a.tier], capture_output=True, text=True, env=env, cwd=ROOT)
             viol = [l for l in rc.stdout.splitlines() if l.startswith("VIOLATION")]
